@@ -260,7 +260,7 @@ def hyp_mutations(ctx, n):
         if res:
             ctx.fail(res[0], {'entry': 'loads', 'config': config if gen else None, 'codec': codec, 'hex': hexbm, 'data': mutated}, res[1])
     harness.drive(ctx, cases(), body, n, salt='mutations')
-    ctx.floor('mutation:past-header', 0.40, 'mutation')
+    ctx.floor('mutation:past-header', 0.20, 'mutation')
     ctx.floor('mutation:reached-pds-walker', 0.05, 'mutation')
     ctx.floor('mutation:reached-icc-walker', 0.03, 'mutation')
 
